@@ -6,13 +6,13 @@ func init() {
 	core.Register(&core.Property{
 		ID:    "C07",
 		Level: "exploration",
-		Rule: "laws: real ReverseComplement / Subsequence / Copy / Join executed next to a string-level reference. Exhaustive part: for every length 1..12, sequences in which every symbol of acgtryswkmbdhvn.-[] visits every position (rotations of the alphabet) plus random ones, with and without qualities / features / nested annotations / a pairing_mismatches entry at every position, x EVERY window: linear 0<=from<to<=n, circular windows of x+x (from<2n, length<=n) and wrapped ones (from>=to>=0); laws rc(rc(x))=x (in place and through a rebuilt object), rc(x)=reference, rc(sub(x,i,j))=sub(rc(x),n-j,n-i) (linear and circular), subcirc(x,i,j)=window of x+x (reference, and real Join(x,x) when x has no qualities), Copy equal, sources unchanged, mismatch positions transformed. Random part: lengths 13..2200 (pool limits 300/1024 included), edge windows. Sharing part: every (derivation in copy/rc/sub/subcirc/join) x (mutator in rc-inplace/SetSequence/SetQualities/SetFeatures/SetAttribute/nested-edit/DeleteAttribute/Join-inplace/Recycle) x (mutate derived / mutate source), poison on, pool draws after Recycle. " +
+		Rule: "laws: real ReverseComplement / Subsequence / Copy / Join executed next to a string-level reference. Exhaustive part: for every length 1..12, sequences in which every symbol of acgtryswkmbdhvn.-[] visits every position (rotations of the alphabet) plus random ones, with and without qualities / features / nested annotations / a pairing_mismatches entry at every position, x EVERY window: linear 0<=from<to<=n, circular windows of x+x (from<2n, length<=n) and wrapped ones (from>=to>=0); laws rc(rc(x))=x (in place and through a rebuilt object), rc(x)=reference, rc(sub(x,i,j))=sub(rc(x),n-j,n-i) (linear and circular), subcirc(x,i,j)=window of x+x (reference, and real Join(x,x) when x has no qualities), Copy equal, sources unchanged, mismatch positions transformed. Random part: lengths 13..2200 (pool limits 300/1024 included), edge windows. Sharing part: every (derivation in copy/rc/sub/subcirc/join, and copy/rc/join of a source emptied by Clear()+ClearQualities() or created by NewEmptyBioSequence(n>0): zero-length slices that keep a capacity) x (mutator in rc-inplace/SetSequence/SetQualities/SetFeatures/SetAttribute/nested-edit/DeleteAttribute/Join-inplace/Recycle/Append(Write|WriteString|WriteByte + WriteQualities|WriteByteQualities)/Clear) x (mutate derived / mutate source), then an Append to the other object; poison on, pool draws after Recycle. " +
 			"tables: the complement of every IUPAC symbol (both cases) through obiseq (one-symbol sequences), obiapat (one-symbol patterns, C table) and obikmer (verif export of revcompnuc) against the IUPAC complement, and random IUPAC patterns <= 63. " +
-			"history: populations of 4..35 live sequences, 200..2000 random operations (New, Copy, RC, RC-inplace, Sub, SubCirc, Join, Join-inplace, SetSequence, SetQualities, SetFeatures, attribute set/delete/nested edit, Recycle, pool scribbles GetSlice/RecycleSlice/GetAnnotation/RecycleAnnotation, Drop) with a random operation mix per history, poison on, one P and no background GC (pool hand-out order is a function of the operations); after EVERY step all live objects are compared with a harness-owned model and all live backing arrays / annotation containers are checked for overlap. " +
+			"history: populations of 4..35 live sequences, 200..2000 random operations (New, Copy, RC, RC-inplace, Sub, SubCirc, Join, Join-inplace, SetSequence, SetQualities, SetFeatures, attribute set/delete/nested edit, Recycle, pool scribbles GetSlice/RecycleSlice/GetAnnotation/RecycleAnnotation, Drop, NewEmptyBioSequence(0|n) (+Grow), Clear(+ClearQualities), ClearQualities, Append = Write|WriteString|WriteByte (+WriteQualities|WriteByteQualities), Grow; Copy/RC/Join/SetSequence/SetQualities/Recycle/Append are steered to empty objects one time out of three) with a random operation mix per history, poison on, one P and no background GC (pool hand-out order is a function of the operations); after EVERY step all live objects are compared with a harness-owned model and all live backing arrays / annotation containers are checked for overlap. " +
 			"distinct_nontrivial = distinct (length, from, to, circular, qualities, mismatches) windows for n<=12 and (length class, edge class) above + distinct (derivation, mutator, direction, length class) sharing trials + distinct (operation, origin of the object, state of its source, has children, qualities) and (previous operation on the object > operation) pairs observed in histories + symbols / pattern lengths of the tables",
 		Assume: []string{
 			"alphabet of the property: acgtryswkmbdhvn.-[] ('u' is only used for the comparison of the three tables); nucleotides are compared case-insensitively",
-			"sequences are non-empty and well formed (qualities, when present, as long as the sequence); Join, which does not extend qualities, is only applied to receivers without qualities",
+			"sequences are well formed at the end of every step (qualities, when present, as long as the sequence): Clear() is followed by ClearQualities() when there are qualities, the append-style mutators add as many qualities as nucleotides; Join, which does not extend qualities, is only applied to receivers without qualities; empty sequences (cleared, preallocated) take part in every operation except Subsequence (no window of the domain)",
 			"circular windows: from<to means (x+x)[from:to] with to<=2n and length<=n; from>=to (from<n) means x[from:]+x[:to]",
 			"pairing_mismatches positions are 1-based (obialign.BuildQualityConsensus); the order of the two (symbol, score) items of a key and the case of the symbols are not constrained",
 			"not constrained: ids, source, feature table of a subsequence, whether ReverseComplement(true) modifies its receiver when it answers with a cached object",
